@@ -3,7 +3,8 @@ from .common import run_balance, workspace_fns, table, BB
 from . import movefields as MF
 from .. import balance as B
 from ..cfg import Cfg
-from ..expr import Exprs, PathEval, show, leaves
+from ..expr import Exprs, PathEval, show, leaves, Inliner, fold, subst, Unfoldable
+from ..paths import returning_paths, NotLoopFree, cond_holds
 
 SCOPE = "engine"
 LEVEL = "other"
@@ -424,6 +425,101 @@ def run(ctx):
     ctx.assumptions += ["the 12-bit undo field bounds the half-move clock to 0..4095 (the property's quantifier)"]
 
 
+def side_number_runner(ctx, rid, fns):
+    """returns run_fn(fn, turn, number) -> {(new turn, new number): conditions on the number} evaluated over every
+    returning path of make / unmake feasible with that turn; None when an anchor is lost"""
+    prog = ctx.prog
+    SELF = ("*", ("param", 1))
+    TURN, FULL = ("f", SELF, "turn"), ("f", SELF, "fullmove_clock")
+    inl = Inliner(prog, only=lambda k: k.startswith("inkayaku_board::"))
+    from ..callgraph import CallGraph
+    cg = CallGraph(prog)
+    outcomes = {}
+    for fn in fns:
+        f = ctx.fn(rid, BB + fn)
+        # callees never write the two fields (so remembered writes survive calls)
+        writers = []
+        for k in sorted(cg.reachable([BB + fn])[0]):
+            g = prog.fns.get(k)
+            if g is None or k == BB + fn:
+                continue
+            for blk in g["blocks"]:
+                for st in blk["stmts"]:
+                    d = st["dst"]
+                    if d is not None and d["p"] and isinstance(d["p"][-1], dict) and d["p"][-1].get("name") in ("turn", "fullmove_clock"):
+                        writers.append(k)
+        ok = not writers
+        ctx.ob(rid, "%s|callees-do-not-write-side-or-number" % fn, ok, "" if ok else "%s reaches %s which write turn / fullmove_clock" % (fn, sorted(set(writers))), ctx.where(f))
+        if not ok:
+            return None
+        try:
+            pes = returning_paths(f, inliner=inl, limit=100000, keep_mem=lambda k: True)
+        except (NotLoopFree, OverflowError) as e:
+            ctx.lost(rid, "%s is not loop free or has too many paths (%s)" % (fn, e))
+            return None
+        outcomes[fn] = (f, pes)
+
+    def run_fn(fn, turn, full):
+        """set of (new turn, new number, blocking condition) over the paths feasible with this turn"""
+        f, pes = outcomes[fn]
+        env = {TURN: ("c", turn, "u8", None), FULL: ("c", full, "u32", None)}
+        res = {}
+        for pe in pes:
+            feasible, depends = True, []
+            for (d, c, b, ty) in pe.conds:
+                d2 = subst(d, {TURN: env[TURN]})
+                try:
+                    v = fold(d2)
+                except Unfoldable:
+                    if FULL in set(leaves(d2)):
+                        depends.append(show(d))
+                    continue
+                if not cond_holds(c, v):
+                    feasible = False
+                    break
+            if not feasible:
+                continue
+            nt = pe.mem.get(TURN, TURN)
+            nf = pe.mem.get(FULL, FULL)
+            try:
+                out = (fold(subst(nt, env)), fold(subst(nf, env)))
+            except Unfoldable as e:
+                out = ("?", "%s / %s" % (show(nt), show(nf)))
+            res.setdefault(out, set()).update(depends)
+        return res
+
+    run_fn.where = {fn: ctx.where(outcomes[fn][0]) for fn in outcomes}
+    return run_fn
+
+
+def r7_side_and_number(ctx):
+    rid = "C03.R7"
+    ctx.rule(rid, "side to move and full-move number: evaluated path by path for turn in {0, 1}, make flips the side and adds the mover's colour to the move number whatever else holds, and unmake run on make's result restores both; no callee of make/unmake writes these fields", floor=6)
+    run_fn = side_number_runner(ctx, rid, ("make", "unmake"))
+    if run_fn is None:
+        return
+    BASE = 1000
+
+    def fmt(r):
+        return sorted((a, b - BASE if isinstance(b, int) else b) for a, b in r)
+
+    def deps(r):
+        return "; differing paths branch on %s" % sorted(set().union(*r.values())) if any(r.values()) else ""
+
+    for t in (0, 1):
+        r1 = run_fn("make", t, BASE)
+        want = (1 - t, BASE + t)
+        ok = set(r1) == {want}
+        ctx.ob(rid, "make|turn=%d" % t, ok,
+               "" if ok else "make with turn=%d: over its feasible paths (turn, change of the move number) becomes %s, expected only %s%s" % (t, fmt(r1), (want[0], t), deps(r1)),
+               run_fn.where["make"], sample={"outcomes": [list(map(str, k)) for k in r1]})
+        r2 = run_fn("unmake", want[0], want[1])
+        ok = set(r2) == {(t, BASE)}
+        ctx.ob(rid, "unmake-after-make|turn=%d" % t, ok,
+               "" if ok else "unmake run after make with turn=%d: (turn, change of the move number) becomes %s, expected only %s%s" % (t, fmt(r2), (t, 0), deps(r2)),
+               run_fn.where["unmake"], sample={"outcomes": [list(map(str, k)) for k in r2]})
+
+
 _run_before_fx = run
 
 
@@ -431,3 +527,4 @@ def run(ctx):
     _run_before_fx(ctx)
     from . import movefx_rules
     movefx_rules.rule_unmake_inverts_make(ctx)
+    r7_side_and_number(ctx)
